@@ -55,6 +55,7 @@ type chanModel struct {
 	StoredStart uint64
 	Trimmed     uint64 // rows 1..Trimmed physically deleted
 	Adopted     uint64 // adopted retention boundary
+	RetainedMax uint64 // the store's RetainedMaxSeq (log end remembered by retention)
 	History     []channel.EpochPoint
 	Cursors     map[string]uint64
 	Snapshot    []byte
@@ -133,6 +134,8 @@ type builder struct {
 	nextID uint64
 	tsBase int64
 	uids   []string
+	// tailTrim allows retention to run while the log has an uncommitted tail.
+	tailTrim bool
 }
 
 func (b *builder) fail(format string, args ...any) bool {
@@ -317,6 +320,7 @@ func (b *builder) trimOp(c *chanModel, through uint64, limit int) bool {
 	if !res.More && through > c.Trimmed {
 		c.Trimmed = through
 	}
+	c.RetainedMax = max(c.RetainedMax, c.leo(), through)
 	b.r.Logf("src %s trim through=%d limit=%d deleted=%d more=%v trimmed=%d", c.Key, through, limit, res.Deleted, res.More, c.Trimmed)
 	return true
 }
@@ -329,6 +333,9 @@ func (b *builder) truncateOp(c *chanModel, to uint64) bool {
 		return b.fail("Truncate %s to=%d leo=%d: %v", c.Key, to, c.leo(), err)
 	}
 	c.Msgs = c.Msgs[:to]
+	if c.Adopted > 0 && c.RetainedMax > to {
+		c.RetainedMax = to
+	}
 	for len(c.Props) > 0 && c.Props[len(c.Props)-1].Last > to {
 		c.Props = c.Props[:len(c.Props)-1]
 	}
@@ -385,6 +392,9 @@ func (b *builder) step() bool {
 	case 3:
 		return b.epochOp(c)
 	case 4: // retention: only committed rows are ever adopted
+		if !b.tailTrim && c.leo() != c.StoredHW {
+			return true // this run never trims while an uncommitted tail exists
+		}
 		if c.StoredHW == 0 || c.StoredHW <= c.Adopted && c.Trimmed >= c.Adopted {
 			return true
 		}
@@ -416,15 +426,16 @@ func (b *builder) step() bool {
 }
 
 // chooseCuts picks the exported committed watermark of every channel: a
-// proposal boundary at or above the adopted retention boundary and at or below
-// the log end; it may lie above or below the stored checkpoint (the cluster
-// layer, not the replica, selects the cut).
+// proposal boundary between the stored checkpoint (and adopted retention
+// boundary) and the log end. pkg/cluster's OpenBackupMessageSnapshot selects the
+// leader runtime's HW, the stored HW, or the log end (MinISR<=1), i.e. exactly
+// this range.
 func (b *builder) chooseCuts() {
 	t := b.r.Tape
 	for _, c := range b.chans {
 		var cands []uint64
 		for _, x := range c.boundaries() {
-			if x >= c.Adopted {
+			if x >= c.Adopted && x >= c.StoredHW {
 				cands = append(cands, x)
 			}
 		}
@@ -447,8 +458,8 @@ func (b *builder) chooseCuts() {
 			c.CutStart = pick
 		}
 		c.CutEpoch = c.Epoch
-		b.r.Logf("cut %s slot=%d exact=%v leo=%d storedHW=%d adopted=%d trimmed=%d -> hw=%d start=%d epoch=%d",
-			c.Key, c.Slot, c.Exact, c.leo(), c.StoredHW, c.Adopted, c.Trimmed, c.CutHW, c.CutStart, c.CutEpoch)
+		b.r.Logf("cut %s slot=%d exact=%v leo=%d storedHW=%d adopted=%d trimmed=%d retainedMax=%d -> hw=%d start=%d epoch=%d",
+			c.Key, c.Slot, c.Exact, c.leo(), c.StoredHW, c.Adopted, c.Trimmed, c.RetainedMax, c.CutHW, c.CutStart, c.CutEpoch)
 	}
 }
 
